@@ -81,6 +81,13 @@ def cases(tier, seed):
                 if hi is not None:
                   kw["max_po2_exponent"] = hi
                 out.append({"cls": "binary", "kw": kw, "shape": list(shape), "kind": kind})
+        # the stochastic-rounding option of binary / ternary at inference (learning phase 0) is the same function
+        for alpha in (None, 2.0, "auto", "auto_po2"):
+          out.append({"cls": "binary", "kw": {"alpha": alpha, "use_01": False, "use_stochastic_rounding": True},
+                      "shape": list(shape), "kind": kind})
+          if isinstance(alpha, str):      # ternary asserts the option away for constant scales
+            out.append({"cls": "ternary", "kw": {"alpha": alpha, "threshold": None, "use_stochastic_rounding": True},
+                        "shape": list(shape), "kind": kind})
         # ternary
         for alpha in (None, 1.0, 2.0, 0.5, "auto", "auto_po2"):
           ths = [None] if isinstance(alpha, str) else [None, 0.1, 0.5, 1.0]
